@@ -76,8 +76,10 @@ impl Mesh1D<f64, f64> {
                 let delta_x: f64 = x_pos - self.nodes[ node ];
                 let left = self.get_nodes_vars( node );
                 let right = self.get_nodes_vars( node + 1 );
-                let deriv = (right - left.clone()) / ( self.nodes[ node + 1 ] - self.nodes[ node ] );
-                result = left + deriv * delta_x;
+                // ( right - left ) * t with t = delta_x / h reproduces the nodal values exactly ( t = 0 or 1 ),
+                // ( ( right - left ) / h ) * delta_x does not when h is not a power of two
+                let t = delta_x / ( self.nodes[ node + 1 ] - self.nodes[ node ] );
+                result = left.clone() + ( right - left ) * t;
             }
         }
         result
